@@ -264,3 +264,23 @@ CHECKS["C02"] = dict(
                "differs from the code only for data two Literal cases accept (documented as undefined): no rule.",
     design_ref="DESIGN.md 3/C02",
 )
+
+NA.discard("C17")
+CHECKS["C17"] = dict(
+    category="other",
+    technique="sibling cross-check of compiler output across model kinds (tier G: the compilation pipeline is driven for the "
+              "same logical model declared as dataclass / NamedTuple / TypedDict / attrs / pydantic; emitted loaders and "
+              "dumpers are reduced to kind-independent fingerprints by def-use audit and compared), converter pair audit, "
+              "layering (who-may-import) rule, introspector list rule",
+    text="Decides, for the enumerated logical models (7 specs) x name_mapping settings (6) x debug modes, that the loader and "
+         "dumper programs emitted for every model kind agree on per-field path, bound loader/dumper function, trail, default "
+         "expression (literal / typed captured constant / factory call), rejected error classes per node, unknown-key and "
+         "length checks, sieve conditions and return form; that converters between every ordered pair of kinds copy every "
+         "field from the same-named source field; that no stage after the shape provider imports a kind-specific "
+         "introspector; that the builtin shape provider lists each documented kind once with __init__ introspection last. "
+         "Universal over input data (emitted text is audited, never run); bounded over models and kinds (sqlalchemy is not "
+         "enumerated).",
+    level_note="Trusted: Python ast; the class-definition templates of the five kinds in sa/gen_child.py. Known finding: "
+               "TypedDict fields are listed alphabetically, so list layouts differ from every other kind.",
+    design_ref="DESIGN.md 8.8",
+)
